@@ -2,6 +2,7 @@ package kvql
 
 import (
 	"fmt"
+	"strconv"
 	"strings"
 )
 
@@ -262,6 +263,10 @@ func (a *AggregatePlan) batchGetAggrKeys(chunk []KVPair, ctx *ExecuteCtx) ([]str
 			if err != nil {
 				return nil, err
 			}
+			// Frame every component with its length so that different
+			// value tuples never render to the same key
+			aggKey = strconv.AppendInt(aggKey, int64(len(bval)), 10)
+			aggKey = append(aggKey, ':')
 			aggKey = append(aggKey, bval...)
 		}
 		ret[i] = string(aggKey)
@@ -507,7 +512,9 @@ func (a *AggregatePlan) getAggrKey(key []byte, val []byte, ctx *ExecuteCtx) (str
 		if err != nil {
 			return "", err
 		}
-		gkey += string(bval)
+		// Frame every component with its length so that different
+		// value tuples never render to the same key
+		gkey += strconv.Itoa(len(bval)) + ":" + string(bval)
 	}
 	return gkey, nil
 }
